@@ -20,8 +20,10 @@ structure Blk where
   post : Option World
 
 structure Node where
-  cid : Bytes
-  acceptCid : Bytes
+  cidA : Bytes                -- chain-id hash of blocks below the hard-fork height `forkAt`
+  cidB : Bytes                -- … of blocks at or above it (`forkAt = 0`: every block)
+  forkAt : Nat
+  poolH : Nat                 -- height of the block the pool was last notified of
   pub : Bool
   maxAER : Nat
   txs : List (Nat × Tx)
@@ -39,7 +41,7 @@ def emptyWorld : World :=
   { nonce := fun _ => 0, led := { bal := fun _ => 0, names := fun _ => none, pend := [], creator := fun _ => [] } }
 
 def Node.init : Node :=
-  { cid := [], acceptCid := [], pub := false, maxAER := 0, txs := [], blks := [], best := 0, accts := [], shown := [], hashes := [], names := [],
+  { cidA := [], cidB := [], forkAt := 0, poolH := 0, pub := false, maxAER := 0, txs := [], blks := [], best := 0, accts := [], shown := [], hashes := [], names := [],
     pool := Pool.Pool.init, pentries := [], poolW := emptyWorld }
 
 def findTx (nd : Node) (tid : Nat) : Option Tx := (nd.txs.find? (·.1 == tid)).map (·.2)
@@ -101,6 +103,15 @@ def bErr : BErr → String
 
 def short (b : Bytes) : String := hex (b.take 4)
 
+/-- `bi.ChainIdHash()` of a block at height `h`: hash of the chain id carrying the hard-fork version of that height. -/
+def cidFor (nd : Node) (h : Nat) : Bytes := if h < nd.forkAt then nd.cidA else nd.cidB
+
+/-- the pool's `acceptChainIdHash`: the chain id with the version of the block after the one it was last told about -/
+def acceptCid (nd : Node) : Bytes := cidFor nd (nd.poolH + 1)
+
+/-- number standing for the chain id bytes of a block header (version 0 in the genesis header, then per fork version) -/
+def chainNo (nd : Node) (h : Nat) : Nat := if h = 0 then 1 else if h < nd.forkAt then 2 else 3
+
 def env (nd : Node) : Env := zeroFeeEnv nd.pub nd.maxAER
 
 /-- cost `ValidateWithSenderState` compares with the balance (zero fee) -/
@@ -115,7 +126,7 @@ def hitOf (nd : Node) (t : Tx) : Bool :=
 /-- `TxVerifier.Receive`: exists?, verifyTx, put. -/
 def takeTx (nd : Node) (tid : Nat) (t : Tx) : Node × String :=
   let W := nd.poolW
-  match poolAdmit Hid idealVerify (env nd) nd.acceptCid W (fun h => hitOf nd { t with hash := h }) stdExtra t with
+  match poolAdmit Hid idealVerify (env nd) (acceptCid nd) W (fun h => hitOf nd { t with hash := h }) stdExtra t with
   | .error e => (nd, aErr e)
   | .ok acc =>
     let (accts, ai) := reg nd.accts acc
@@ -131,12 +142,12 @@ def takeTx (nd : Node) (tid : Nat) (t : Tx) : Node × String :=
     | .insufficient => (nd1, "balance")
     | .same => (nd1, "same")
 
-/-- `MemPoolDel{block}` after a block was executed and connected: `removeOnBlockArrival`. Chain id number: the
-genesis header carries version 0 of the chain id (1), every later block the current version (2) — the first block
-notification therefore takes the "forked" path of `setStateDB` and empties the pool, as in the real node. -/
-def notifyPool (nd : Node) (bid parent : Nat) (W : World) : Node :=
-  let P := nd.pool.blockArrival (bid + 1) (parent + 1) 2 [] (sigmaOf W nd.accts)
-  { nd with pool := P, poolW := W }
+/-- `MemPoolDel{block}` after a block was executed and connected: `removeOnBlockArrival`. When the chain id bytes of the
+block differ from those of the block the pool knew (genesis → block 1, and at the hard-fork height) `setStateDB` reports
+"forked" and the pool is emptied, as in the real node. -/
+def notifyPool (nd : Node) (bid parent h : Nat) (W : World) : Node :=
+  let P := nd.pool.blockArrival (bid + 1) (parent + 1) (chainNo nd h) [] (sigmaOf W nd.accts)
+  { nd with pool := P, poolW := W, poolH := h }
 
 def txsOf (nd : Node) (tids : List Nat) : Option (List Tx) := tids.mapM (findTx nd)
 
@@ -173,10 +184,10 @@ def rollForward (useMempool : Bool) : Node → World → Nat → List Nat → No
       match txsOf nd b.txs with
       | none => (nd, some "bad-op")
       | some txs =>
-        match execBlock Hid idealVerify (env nd) stdBody nd.cid useMempool (hitOf nd) W txs with
+        match execBlock Hid idealVerify (env nd) stdBody (cidFor nd b.height) useMempool (hitOf nd) W txs with
         | .error e => (nd, some (bErr e))
         | .ok (W1, _) =>
-          let nd1 := notifyPool (setPost nd bid W1) bid parent W1
+          let nd1 := notifyPool (setPost nd bid W1) bid parent b.height W1
           rollForward useMempool nd1 W1 bid rest
 
 def insertSorted (x : Nat × String) : List (Nat × String) → List (Nat × String)
@@ -192,11 +203,11 @@ def addBlock (nd : Node) (bid parent : Nat) (useMempool : Bool) (tids : List Nat
       match pb.post with
       | none => (nd, "bad-op")
       | some W =>
-        match execBlock Hid idealVerify (env nd) stdBody nd.cid useMempool (hitOf nd) W txs with
+        match execBlock Hid idealVerify (env nd) stdBody (cidFor nd b.height) useMempool (hitOf nd) W txs with
         | .error e => (nd, "rej:" ++ bErr e)
         | .ok (W1, _) =>
           let nd1 := { nd with blks := nd.blks ++ [{ b with post := some W1 }], best := bid }
-          (notifyPool nd1 bid parent W1, "ok")
+          (notifyPool nd1 bid parent b.height W1, "ok")
     else
       let nd1 := { nd with blks := nd.blks ++ [b] }
       if b.height ≤ bestH then (nd1, "stored") else
@@ -236,6 +247,8 @@ def parseCmd (s : String) : Option Cmd :=
   | ["c", n] => (unhex n).map .create
   | ["u", n, to] => do let n ← unhex n; let to ← unhex to; pure (.update n to)
   | ["d", a] => (unhex a).map .deploy
+  | ["s", "ok"] => some (.script false)
+  | ["s", "vm"] => some (.script true)
   | _ => none
 
 /-- signature reference: `k:<addr>` signed now with that key, `t:<tid>` copied from a transaction, `x:<hex>` raw, `-` none -/
@@ -272,17 +285,17 @@ def poolLine (nd : Node) : String :=
 
 def step (nd : Node) (line : String) : Node × String :=
   match words line with
-  | "new" :: cid :: acid :: pub :: mx :: g :: addrs =>
-    match unhex cid, unhex acid, mx.toNat?, g.toNat?, addrs.mapM unhex with
-    | some cid, some acid, some mx, some g, some addrs =>
+  | "new" :: cidA :: cidB :: forkAt :: pub :: mx :: g :: addrs =>
+    match unhex cidA, unhex cidB, forkAt.toNat?, mx.toNat?, g.toNat?, addrs.mapM unhex with
+    | some cidA, some cidB, some forkAt, some mx, some g, some addrs =>
       let W : World := { nonce := fun _ => 0,
                          led := { bal := fun a => if addrs.contains a then g else 0, names := fun _ => none, pend := [], creator := fun _ => [] } }
       let accts := addrs ++ [aergoName]
       let P := (Pool.Pool.init.setStateDB 1 0 1 (sigmaOf W accts)).1
-      ({ Node.init with cid := cid, acceptCid := acid, pub := pub == "1", maxAER := mx, accts := accts, shown := accts,
+      ({ Node.init with cidA := cidA, cidB := cidB, forkAt := forkAt, pub := pub == "1", maxAER := mx, accts := accts, shown := accts,
                         blks := [{ id := 0, parent := 0, height := 0, txs := [], post := some W }],
                         pool := P, poolW := W }, "ok")
-    | _, _, _, _, _ => (nd, "bad-op")
+    | _, _, _, _, _, _ => (nd, "bad-op")
   | ["tx", tid, nonce, acct, rcpt, amt, payload, gl, gp, ty, cid, sig, hash, size, gov, cmd] =>
     match tid.toNat?, nonce.toNat?, unhex acct, unhex rcpt, unhex amt, unhex payload, gl.toNat?, unhex gp, ty.toNat?,
           unhex cid, size.toNat?, parseVErr gov, parseCmd cmd with
@@ -331,12 +344,12 @@ def step (nd : Node) (line : String) : Node × String :=
       | none => (nd, "bad-op")
     | none => (nd, "bad-op")
   | ["exec", tid, verified] =>
-    match tid.toNat?.bind (findTx nd), unhex verified, worldOf nd nd.best with
-    | some t, some v, some W =>
-      (nd, match executeTx Hid (env nd) stdBody nd.cid W v t with
+    match tid.toNat?.bind (findTx nd), unhex verified, worldOf nd nd.best, findBlk nd nd.best with
+    | some t, some v, some W, some bb =>
+      (nd, match executeTx Hid (env nd) stdBody (cidFor nd (bb.height + 1)) W v t with
         | .error e => "rej:" ++ xErr e
         | .ok (_, e) => s!"ok {short e.account} {e.tx.nonce} " ++ (if e.failed then "F" else "S"))
-    | _, _, _ => (nd, "bad-op")
+    | _, _, _, _ => (nd, "bad-op")
   | "block" :: bid :: parent :: usepool :: tids =>
     match bid.toNat?, parent.toNat?, tids.mapM String.toNat? with
     | some bid, some parent, some tids =>
